@@ -422,6 +422,34 @@ class Ctx:
             return [(op, L, R)]
         return [("true" if truth else "false", self.key(cond, inline))]
 
+    def cmp_dnf(self, cond, truth, inline=True, limit=16):
+        """The condition taken with `truth` as a disjunction of fact lists: a negated conjunction / a disjunction is
+        split into its alternatives (cmp_fact keeps it as one opaque fact).  Falls back to [cmp_fact] beyond `limit`."""
+        fn = self.fn
+
+        def go(c, t):
+            n = fn.nodes[c]
+            k = n["k"]
+            if k == "un" and n["op"] == "!":
+                return go(n["sub"], not t)
+            if k == "ref" and n["dk"] == "local" and inline and self.single_assignment(n["d"]) and (n.get("t") or "").replace("const ", "").strip() == "bool" \
+                    and self.decls.get(n["d"], {}).get("init") is not None:
+                return go(self.decls[n["d"]]["init"], t)
+            if k == "bin" and n["op"] in ("&&", "||"):
+                a, b = go(n["l"], t), go(n["r"], t)
+                if (n["op"] == "&&") == t:
+                    r = [x + y for x in a for y in b]
+                else:
+                    r = a + b
+                if len(r) > limit:
+                    raise OverflowError
+                return r
+            return [self.cmp_fact(c, t, inline)]
+        try:
+            return go(cond, truth)
+        except OverflowError:
+            return [self.cmp_fact(cond, truth, inline)]
+
 
 def _reach(cfg, a, b, avoid):
     """is position b reachable from just after position a without executing position `avoid` again?"""
